@@ -35,7 +35,16 @@ def plan(tier, seed):
             "floors": {"forms_compared": n // 2, "observables_compared": n * 10, "distinct": 300}}
 
 
+_AWKWARD = [None]  # "md" / "csv": values that are awkward for that text container (set per case by run_shard)
+
+
 def value_for(rng, key, i, hostile_mode):
+    if _AWKWARD[0] == "md" and key in ("form_title", "style", "instance_name", "version"):
+        # pipes inside markdown cells (the renderer writes them escaped, as markdown tables require)
+        return {"form_title": f"Intake | Follow-up {i}", "style": f"pages|theme-{i}", "instance_name": f"concat(${{q1}}, ' | {i}')", "version": f"v|{i}"}[key]
+    if _AWKWARD[0] == "csv" and key in ("form_title", "style", "version"):
+        # a line break or a Unicode line separator inside a quoted CSV cell
+        return {"form_title": f"Household survey\n2024 round {i}", "style": f"pages \u2028theme-{i}", "version": f"v\u0085{i}"}[key]
     if hostile_mode and key in ("form_title", "version", "style", "submission_url", "public_key"):
         return hostile.hostile(rng, f"{key}{i}", allow=lambda fr: "instance(" not in fr)
     return {
@@ -360,6 +369,7 @@ def run_shard(ctx):
         channel = CHANNELS[i % len(CHANNELS)]
         argmode = (i // 7) % 2
         hostile_mode = (i % 5 == 0) and channel in ("dict", "dict+fallback", "xlsx-path", "xlsx-bytes")
+        _AWKWARD[0] = ("md" if channel.startswith("md") else "csv") if (channel.startswith(("md", "csv")) and (i // len(CHANNELS)) % 2 == 1) else None
         use_alias = i % 3 == 0
         o = run_case(ctx, rng, mask, i, channel, argmode, hostile_mode, use_alias)
         if i < 2 and o is not None:
